@@ -9,6 +9,7 @@ CONSTANTS
   MaxCmds = 3
   Concurrent = FALSE
   AllowInstant = TRUE
+  AllowCrash = TRUE
   AllowEarly = TRUE
   TickInPrune = TRUE
   UntypedDedup = FALSE
